@@ -37,7 +37,7 @@ SRC = "esutil/htm/htmc.cc"
 
 # rules that keep their verdict however the code is laid out (decided by term equality, effect analysis or dominance over
 # resolved calls); every other rule of this check is a template rule (vcheck.core.Check.obt)
-SEMANTIC = ('R13.3', 'R13.4')
+SEMANTIC = ('R13.3', 'R13.4', 'R13.5', 'R13.6')
 
 
 def run(chk):
@@ -58,6 +58,9 @@ def run(chk):
     intersect(chk, repo, fs)
     bincount_c(chk, fs["HTMC::cbincount"])
     bincount_py(chk, repo, fs["HTMC::cbincount"])
+    id_width(chk)
+    # circle lists: a stored node wholly inside the circle hands over all and only its leaf descendants, by HTM id (shared with C12)
+    _c12.fill_children_rules(chk, rule="R13.6")
 
 
 class Fn:
@@ -522,3 +525,60 @@ def bincount_py(chk, repo, cdecl):
     bsz = (sp.log(b, 10) - sp.log(a, 10)) / n
     ok = isinstance(r, tuple) and len(r) == 2 and symx.equal(r[0], 10 ** (sp.log(a, 10) + bsz * k))[0] and symx.equal(r[1], 10 ** (sp.log(a, 10) + bsz * k + bsz))[0]
     chk.ob("R13.4", "log_bins::edges", bool(ok), lbf.where(), "lower edge k = 10^(log10 rmin + k*binsize), upper = lower*10^binsize with binsize = (log10 rmax - log10 rmin)/nbin (the C++ bin formula)")
+
+
+# ---------------------------------------------------------------------------
+W64 = {"uint64", "int64", "unsigned long", "long", "unsigned long long", "long long", "size_t", "std::size_t", "ssize_t", "ptrdiff_t",
+       "uint64_t", "int64_t", "unsigned long int", "long int"}
+W32 = {"int", "unsigned int", "uint32", "int32", "uint32_t", "int32_t", "unsigned", "short", "unsigned short", "char", "unsigned char",
+       "signed char", "bool", "uint16", "int16", "uint8", "int8"}
+
+
+def _width(t):
+    for k in ("desugaredQualType", "qualType"):
+        q = (t or {}).get(k)
+        if q is None:
+            continue
+        q = q.replace("const ", "").replace("volatile ", "").strip()
+        if q in W64:
+            return 64
+        if q in W32:
+            return 32
+    return None
+
+
+def id_width(chk):
+    """R13.5: HTM ids carry two bits per level, up to depth ~30, so they need more than 32 bits from depth 15 on.  C++ evaluates a
+    shift in the promoted type of its LEFT operand: a shift whose amount is not a small literal and whose left operand is 32 bits
+    wide wraps for deep trees although every depth the tests build still works.  Rule: in the vendored id code every left shift by a
+    computed amount is carried out in a 64-bit type."""
+    seen = 0
+    for tu, src in (("spatialindex", "esutil/htm/htm_src/SpatialIndex.cpp"), ("spatialconvex", "esutil/htm/htm_src/SpatialConvex.cpp")):
+        fs = cfront.functions(cfront.load_tu(tu))
+        done = set()
+        for name, fn in sorted(fs.items()):
+            if "::" not in name or id(fn) in done:
+                continue
+            done.add(id(fn))
+            shifts = [x for x in walk(fn) if x.get("kind") in ("BinaryOperator", "CompoundAssignOperator") and x.get("opcode") in ("<<", "<<=")
+                      and len(x.get("inner", [])) == 2]
+            if not shifts:
+                continue
+            chk.analysed_unit("%s:%s" % (src.rsplit("/", 1)[1], name))
+            for k, x in enumerate(shifts):
+                l, r = x["inner"]
+                if _width(l.get("type")) is None and "ostream" in str((l.get("type") or {}).get("qualType", "")):
+                    continue                                  # stream insertion, not arithmetic
+                amount = strip(r)
+                if amount.get("kind") == "IntegerLiteral" and int(amount.get("value", "99")) < 16:
+                    lw = _width(x.get("type"))
+                    if lw == 64:
+                        seen += 1
+                    continue
+                w = _width(x.get("type"))
+                seen += 1
+                chk.ob("R13.5", "%s::shift#%d-in-64-bit" % (name, k), (w == 64) if w is not None else None,
+                       "%s:%s" % (src, x.get("line") or fn.get("line", "?")),
+                       "`%s` shifts by a computed amount (two bits per level): it is evaluated in the type of its left operand, which must be "
+                       "64 bits wide (found %s)" % (render(x), (x.get("type") or {}).get("qualType")))
+    chk.ob("R13.5", "id-shifts-found", True if seen >= 4 else None, "esutil/htm/htm_src", "%d shift sites in the id code examined" % seen)
